@@ -87,6 +87,9 @@ type parkRec struct {
 func (r *parkRec) key() (int, int, int) {
 	switch r.kind {
 	case opYield, opWait:
+		if r.task == nil {
+			return 2, 1 << 21, int(r.arrival)
+		}
 		return 0, r.task.ID, 0
 	case opAccept:
 		return 1, r.lis.id, 0
@@ -160,6 +163,7 @@ type Sim struct {
 	kick    chan struct{}
 
 	step     uint64
+	stepI    int // mirror of step for WaitStep
 	tearing  bool
 	tasks    [maxTasks]*Task
 	ntasks   int
@@ -173,6 +177,7 @@ type Sim struct {
 	events   []event
 	burstKey int
 	burstN   int
+	timeoutDue bool // some parked op is enabled because its deadline has passed: do not advance the clock first
 
 	maskSrc *maskSource
 	harness []string // harness-level trouble noted during the run
@@ -288,12 +293,14 @@ func (s *Sim) snapshot() []*parkRec {
 //
 //go:norace
 func (s *Sim) sleepKick(d time.Duration) (kicked bool) {
+	// the timer is created outside the race-disabled region: time's lazily
+	// initialised globals must be published with their real synchronisation
+	t := time.NewTimer(d)
 	raceDisable()
 	select {
 	case <-s.kick:
 	default:
 	}
-	t := time.NewTimer(d)
 	select {
 	case <-s.kick:
 		kicked = true
@@ -436,6 +443,15 @@ func (t *Task) End(r *OpRec, err error) {
 	}
 }
 
+// WaitStep parks the calling goroutine until the driver has taken n steps.
+func (s *Sim) WaitStep(t *Task, n int) {
+	r := &parkRec{kind: opWait, task: t, waitVar: &s.stepI, waitVal: n}
+	s.park(r)
+	if r.abort && t != nil {
+		panic(abortRun{})
+	}
+}
+
 // Sleep blocks the task for d of simulated time.
 func (t *Task) Sleep(d time.Duration) {
 	time.Sleep(d)
@@ -458,6 +474,9 @@ func (s *Sim) Drive() string {
 			break
 		}
 		evs, nextT := s.enabled(recs)
+		if len(evs) == 0 && s.skipToWaitStep(recs) {
+			continue
+		}
 		if len(evs) == 0 {
 			d := time.Duration(s.cfg.IdleHorizon) * time.Millisecond
 			timed := false
@@ -477,7 +496,7 @@ func (s *Sim) Drive() string {
 		if len(evs) > 1 {
 			s.stats.ChoicePoint++
 		}
-		if s.cfg.TickPermil > 0 && s.ch.choose(1000) < s.cfg.TickPermil {
+		if s.cfg.TickPermil > 0 && !s.timeoutDue && int(s.stats.Ticks) < s.cfg.MaxSteps && s.ch.choose(1000) >= 1000-s.cfg.TickPermil {
 			q := []time.Duration{time.Millisecond, 100 * time.Millisecond, time.Second, 10 * time.Second}[s.ch.choose(4)]
 			if nextT > 0 && nextT < q {
 				q = nextT
@@ -487,11 +506,30 @@ func (s *Sim) Drive() string {
 		}
 		e := evs[s.pick(evs)]
 		s.step++
+		s.stepI++
 		s.stats.Steps++
 		s.apply(e.rec)
 	}
 	s.stats.SimNanos = int64(s.Now())
 	return reason
+}
+
+// skipToWaitStep: nothing is enabled but somebody waits for a step count that
+// the idle run would never reach: jump the counter to the smallest such value.
+//
+//go:norace
+func (s *Sim) skipToWaitStep(recs []*parkRec) bool {
+	best := -1
+	for _, r := range recs {
+		if r.kind == opWait && r.waitVar == &s.stepI && (best < 0 || r.waitVal < best) {
+			best = r.waitVal
+		}
+	}
+	if best < 0 {
+		return false
+	}
+	s.stepI = best
+	return true
 }
 
 //go:norace
